@@ -46,14 +46,21 @@ def endVerdict (st : St) : String :=
   let rec outsOfV (c : Chan) : List Bytes → List (Option (Chan × Command × Bytes)) → List (Option (Chan × Command × Bytes))
     | p :: ps, o :: os => if Spec.chanOf p = some c then o :: outsOfV c ps os else outsOfV c ps os
     | _, _ => []
-  let applicable := st.expect.filter (fun (c, msgs) =>
+  -- a declared channel is judged when its whole sub-stream is its declared messages, each possibly followed by stray
+  -- continuation packets (position 0), or else when it ends with exactly the packets of its declared messages
+  -- (whatever it carried before; `i` is the last position from which it reads that way)
+  let findStart (c : Chan) (msgs : List (Command × Bytes)) : Option (Nat × List (Option (Chan × Command × Bytes))) :=
     let s := Spec.sub c pkts
-    let e := Spec.streamOf c msgs
-    msgs.all (fun x => x.2.length ≤ 7608) && e.length ≤ s.length && s.drop (s.length - e.length) == e)
-  let bad := applicable.filter (fun (c, msgs) =>
+    match Spec.expectedWithStrays true c msgs s with
+    | some e => if msgs.isEmpty then none else some (0, e)
+    | none =>
+      let e := Spec.streamOf c msgs
+      if !msgs.isEmpty && e.length ≤ s.length && s.drop (s.length - e.length) == e then some (s.length - e.length, Spec.expectedOuts c msgs) else none
+  let applicable := st.expect.filterMap (fun (c, msgs) =>
+    if msgs.all (fun x => x.2.length ≤ 7608) then (findStart c msgs).map (fun r => (c, r)) else none)
+  let bad := applicable.filter (fun (c, (i, e)) =>
     let o := outsOfV c pkts outs
-    let e := Spec.expectedOuts c msgs
-    !(o.drop (o.length - e.length) == e))
+    !(o.drop i == e))
   if st.implBad && !applicable.isEmpty then "fail:receiver-crashed-while-channels-were-transmitting"
   else match bad with
     | [] => s!"ok\tchecked={applicable.length}"
